@@ -6,16 +6,19 @@ import (
 	"encoding/json"
 	"fmt"
 	"io"
+	"net/http"
 	"os"
 	"runtime/debug"
 	"sort"
 	"strconv"
 	"strings"
+	"time"
 
 	"github.com/ysugimoto/falco/v2/ast"
 	"github.com/ysugimoto/falco/v2/lexer"
 	"github.com/ysugimoto/falco/v2/parser"
 	"github.com/ysugimoto/falco/v2/snippet"
+	"github.com/ysugimoto/falco/v2/snippet/remote"
 	"github.com/ysugimoto/falco/v2/snippet/terraform"
 
 	"verif/mc/engine"
@@ -63,6 +66,90 @@ type Case struct {
 	Directors []Director `json:"directors"`
 	Responses []Response `json:"responses"`
 	Label     string     `json:"label"` // class-key part: which field / structure deviates
+	// Terraform plans with two services ("service" with the resources above, "service2" with Second's): Pick says which one is
+	// generated (the way `falco terraform` does it: SetName on the one fetcher), Prior whether the other one was generated first
+	Second *Case `json:"second,omitempty"`
+	Pick   int   `json:"pick,omitempty"`
+	Prior  bool  `json:"prior,omitempty"`
+}
+
+// ---------------------------------------------------------------------------
+// fake Fastly API (remote path): the real remote.FastlyApiFetcher and its client, with http.DefaultClient answered from the case
+
+type fakeAPI struct{ c Case }
+
+func (f *fakeAPI) RoundTrip(r *http.Request) (*http.Response, error) {
+	path := r.URL.Path
+	var body any = []any{}
+	idOf := func(prefix, rest string) int {
+		n, _ := strconv.Atoi(strings.TrimPrefix(strings.SplitN(rest, "/", 2)[0], prefix))
+		return n
+	}
+	switch {
+	case strings.HasSuffix(path, "/version/active"):
+		body = map[string]any{"number": 1}
+	case strings.HasSuffix(path, "/version/1/dictionary"):
+		l := []any{}
+		for i, d := range f.c.Dicts {
+			l = append(l, map[string]any{"id": fmt.Sprintf("d%d", i), "name": d.Name, "write_only": false})
+		}
+		body = l
+	case strings.Contains(path, "/dictionary/d") && strings.HasSuffix(path, "/items"):
+		i := idOf("d", path[strings.Index(path, "/dictionary/d")+len("/dictionary/"):])
+		l := []any{}
+		for _, it := range f.c.Dicts[i].Items {
+			l = append(l, map[string]any{"item_key": it.Key, "item_value": it.Value})
+		}
+		body = l
+	case strings.HasSuffix(path, "/version/1/acl"):
+		l := []any{}
+		for i, a := range f.c.Acls {
+			l = append(l, map[string]any{"id": fmt.Sprintf("a%d", i), "name": a.Name})
+		}
+		body = l
+	case strings.Contains(path, "/acl/a") && strings.HasSuffix(path, "/entries"):
+		i := idOf("a", path[strings.Index(path, "/acl/a")+len("/acl/"):])
+		l := []any{}
+		for _, e := range f.c.Acls[i].Entries {
+			m := map[string]any{"ip": e.IP, "negated": "0", "subnet": nil, "comment": e.Comment}
+			if e.Negated {
+				m["negated"] = "1"
+			}
+			if e.Subnet >= 0 {
+				m["subnet"] = e.Subnet
+			}
+			l = append(l, m)
+		}
+		body = l
+	case strings.HasSuffix(path, "/version/1/backend"):
+		l := []any{}
+		for _, b := range f.c.Backends {
+			l = append(l, map[string]any{"name": b.Name, "shield": nil, "address": b.Address})
+		}
+		body = l
+	case strings.HasSuffix(path, "/version/1/director"):
+		l := []any{}
+		for _, d := range f.c.Directors {
+			r := d.Retries
+			if r < 0 {
+				r = 0
+			}
+			bs := d.Backends
+			if bs == nil {
+				bs = []string{}
+			}
+			l = append(l, map[string]any{"name": d.Name, "type": d.Type, "backends": bs, "retries": r, "quorum": d.Quorum})
+		}
+		body = l
+	case strings.HasSuffix(path, "/version/1/response_object"):
+		l := []any{}
+		for _, ro := range f.c.Responses {
+			l = append(l, map[string]any{"name": ro.Name, "content": ro.Content, "content_type": ro.ContentType, "status": strconv.Itoa(ro.Status), "response": "OK", "cache_condition": "", "request_condition": ""})
+		}
+		body = l
+	}
+	b, _ := json.Marshal(body)
+	return &http.Response{StatusCode: 200, Status: "200 OK", Proto: "HTTP/1.1", ProtoMajor: 1, ProtoMinor: 1, Header: http.Header{"Content-Type": []string{"application/json"}}, Body: io.NopCloser(bytes.NewReader(b)), Request: r}, nil
 }
 
 // ---------------------------------------------------------------------------
@@ -136,48 +223,11 @@ func (s *stub) LoggingEndpoints() ([]string, error)              { return nil, n
 // Terraform plan JSON
 
 func planJSON(c Case) []byte {
-	svc := map[string]any{"id": "svc1", "name": "service"}
-	var acls, dicts, backends, directors, resps []any
-	var extra []any
-	for _, a := range c.Acls {
-		acls = append(acls, map[string]any{"name": a.Name, "acl_id": "id-" + a.Name})
-		var es []any
-		for _, e := range a.Entries {
-			sub := ""
-			if e.Subnet >= 0 {
-				sub = strconv.Itoa(e.Subnet)
-			}
-			es = append(es, map[string]any{"ip": e.IP, "negated": e.Negated, "subnet": sub, "comment": e.Comment})
-		}
-		extra = append(extra, map[string]any{"provider_name": "registry.terraform.io/fastly/fastly", "type": "fastly_service_acl_entries", "index": a.Name,
-			"values": map[string]any{"service_id": "svc1", "entry": es}})
+	resources := serviceResources(c, "svc1", "service")
+	service, extra := resources[:1], resources[1:]
+	if c.Second != nil {
+		resources = append(resources, serviceResources(*c.Second, "svc2", "service2")...)
 	}
-	for _, d := range c.Dicts {
-		dicts = append(dicts, map[string]any{"name": d.Name, "dictionary_id": "id-" + d.Name})
-		items := map[string]string{}
-		for _, it := range d.Items {
-			items[it.Key] = it.Value
-		}
-		extra = append(extra, map[string]any{"provider_name": "registry.terraform.io/fastly/fastly", "type": "fastly_service_dictionary_items", "index": d.Name,
-			"values": map[string]any{"service_id": "svc1", "items": items}})
-	}
-	for _, b := range c.Backends {
-		backends = append(backends, map[string]any{"name": b.Name, "address": b.Address})
-	}
-	for _, d := range c.Directors {
-		m := map[string]any{"name": d.Name, "type": d.Type, "backends": d.Backends, "quorum": d.Quorum}
-		if d.Retries >= 0 {
-			m["retries"] = d.Retries
-		}
-		directors = append(directors, m)
-	}
-	for _, r := range c.Responses {
-		resps = append(resps, map[string]any{"name": r.Name, "content": r.Content, "content_type": r.ContentType, "status": r.Status, "response": "OK"})
-	}
-	svc["acl"], svc["dictionary"], svc["backend"], svc["director"], svc["response_object"] = acls, dicts, backends, directors, resps
-	svc["vcl"] = []any{map[string]any{"name": "main", "main": true, "content": "sub vcl_recv { }"}}
-	resources := append([]any{map[string]any{"provider_name": "registry.terraform.io/fastly/fastly", "type": "fastly_service_vcl", "values": svc}}, extra...)
-	service := resources[:1]
 	mod := func(addr string, res []any, children ...any) map[string]any {
 		m := map[string]any{"address": addr, "resources": res}
 		if len(children) > 0 {
@@ -199,6 +249,51 @@ func planJSON(c Case) []byte {
 	doc := map[string]any{"planned_values": map[string]any{"root_module": root}}
 	b, _ := json.Marshal(doc)
 	return b
+}
+
+// serviceResources: the fastly_service_vcl resource of one service followed by its item / entry resources
+func serviceResources(c Case, svcID, svcName string) []any {
+	svc := map[string]any{"id": svcID, "name": svcName}
+	var acls, dicts, backends, directors, resps []any
+	var extra []any
+	for _, a := range c.Acls {
+		acls = append(acls, map[string]any{"name": a.Name, "acl_id": "id-" + a.Name})
+		var es []any
+		for _, e := range a.Entries {
+			sub := ""
+			if e.Subnet >= 0 {
+				sub = strconv.Itoa(e.Subnet)
+			}
+			es = append(es, map[string]any{"ip": e.IP, "negated": e.Negated, "subnet": sub, "comment": e.Comment})
+		}
+		extra = append(extra, map[string]any{"provider_name": "registry.terraform.io/fastly/fastly", "type": "fastly_service_acl_entries", "index": a.Name,
+			"values": map[string]any{"service_id": svcID, "entry": es}})
+	}
+	for _, d := range c.Dicts {
+		dicts = append(dicts, map[string]any{"name": d.Name, "dictionary_id": "id-" + d.Name})
+		items := map[string]string{}
+		for _, it := range d.Items {
+			items[it.Key] = it.Value
+		}
+		extra = append(extra, map[string]any{"provider_name": "registry.terraform.io/fastly/fastly", "type": "fastly_service_dictionary_items", "index": d.Name,
+			"values": map[string]any{"service_id": svcID, "items": items}})
+	}
+	for _, b := range c.Backends {
+		backends = append(backends, map[string]any{"name": b.Name, "address": b.Address})
+	}
+	for _, d := range c.Directors {
+		m := map[string]any{"name": d.Name, "type": d.Type, "backends": d.Backends, "quorum": d.Quorum}
+		if d.Retries >= 0 {
+			m["retries"] = d.Retries
+		}
+		directors = append(directors, m)
+	}
+	for _, r := range c.Responses {
+		resps = append(resps, map[string]any{"name": r.Name, "content": r.Content, "content_type": r.ContentType, "status": r.Status, "response": "OK"})
+	}
+	svc["acl"], svc["dictionary"], svc["backend"], svc["director"], svc["response_object"] = acls, dicts, backends, directors, resps
+	svc["vcl"] = []any{map[string]any{"name": "main", "main": true, "content": "sub vcl_recv { }"}}
+	return append([]any{map[string]any{"provider_name": "registry.terraform.io/fastly/fastly", "type": "fastly_service_vcl", "values": svc}}, extra...)
 }
 
 // ---------------------------------------------------------------------------
@@ -304,7 +399,7 @@ func gen20(tier string, emit func(Case)) {
 	all := strs(maxLen)
 	one := strs(1)
 	emitBoth := func(c Case) {
-		for _, p := range []string{"api", "terraform"} {
+		for _, p := range []string{"api", "terraform", "remote"} {
 			x := clone(c)
 			x.Path = p
 			emit(x)
@@ -394,6 +489,30 @@ func gen20(tier string, emit func(Case)) {
 			emit(c)
 		}
 	}
+	// Terraform plans with two services: each is generated from its own resources, whichever is generated first
+	{
+		second := Case{
+			Dicts:     []Dict{{"tbl", []DictItem{{"k1", "other"}, {"k3", "v3"}}}, {"flags", []DictItem{{"on", "1"}}}},
+			Acls:      []Acl{{"acl1", []AclEntry{{"198.51.100.0", true, 24, "z"}}}},
+			Backends:  []Backend{{"origin", "example.net"}, {"third", "example.edu"}},
+			Directors: []Director{{"dir", 3, []string{"third"}, -1, 50}},
+			Responses: []Response{{"resp", "other body", "text/html", 503}},
+		}
+		empty := Case{}
+		for si, sec := range []Case{second, empty} {
+			for pick := 0; pick <= 1; pick++ {
+				for _, prior := range []bool{false, true} {
+					for _, lay := range []string{"", "all-in-child"} {
+						c := base()
+						s2 := clone(sec)
+						c.Second, c.Pick, c.Prior, c.TFLayout, c.Path = &s2, pick, prior, lay, "terraform"
+						c.Label = fmt.Sprintf("structure two-services second:%d pick:%d prior:%v", si, pick, prior)
+						emit(c)
+					}
+				}
+			}
+		}
+	}
 	// resource names that differ only in the length of a run of non-identifier characters must stay distinct
 	for _, pr := range [][2]string{{"api-v1", "api--v1"}, {"a.b", "a..b"}, {"x y", "x  y"}, {"o-", "o--"}, {"Origin - EU", "Origin-EU"}} {
 		c := base()
@@ -434,7 +553,23 @@ func fetch(c Case) (sn *snippet.Snippets, err error, pan string) {
 		if perr != nil {
 			return nil, perr, ""
 		}
-		f = terraform.NewTerraformFetcher(services)
+		tf := terraform.NewTerraformFetcher(services)
+		f = tf
+		if c.Second != nil {
+			names := []string{"service", "service2"}
+			if c.Prior {
+				tf.SetName(names[1-c.Pick])
+				if _, err := snippet.Fetch(f); err != nil {
+					return nil, err, ""
+				}
+			}
+			tf.SetName(names[c.Pick])
+		}
+	} else if c.Path == "remote" {
+		oldT := http.DefaultClient.Transport
+		http.DefaultClient.Transport = &fakeAPI{c}
+		defer func() { http.DefaultClient.Transport = oldT }()
+		f = remote.NewFastlyApiFetcher("svc", "key", 20*time.Second)
 	} else {
 		f = &stub{c}
 	}
@@ -465,6 +600,12 @@ func run(c Case) engine.Result {
 		res.Outcome = kind
 	}
 	sn, err, pan := fetch(c)
+	if c.Second != nil && c.Pick == 1 {
+		// the generated VCL has to be faithful to the second service's resources
+		lbl, path := c.Label, c.Path
+		c = clone(*c.Second)
+		c.Label, c.Path = lbl, path
+	}
 	if pan != "" {
 		fail("panic@"+engine.PanicSite(pan), "generating VCL panics: "+strings.SplitN(pan, "\n", 2)[0], c)
 		return res
@@ -692,7 +833,7 @@ func init() {
 	engine.Register(engine.Spec[Case]{
 		ID:    "C20",
 		Level: "exploration",
-		Rule: "resource sets fed through both entry paths (a stub Fastly API fetcher and a generated Terraform plan JSON through terraform.ParseStdin): every string of length <= 2 (quick) / 3 (thorough) over the 12-symbol alphabet {a \" % 2 0 { } newline # \\ space ;} plus URL-encoded and quote/brace specials placed in turn in every free-text field (dictionary key, dictionary value, ACL comment, backend address, response content, response content type), every pair of fields with every pair of strings of length <= 1 (thorough: 2), every 1-2 character insertion of -, ., space, é at every position of a backend name (also as director member) and of a director name, and structures (0/1/3 items, IPv4/IPv6 entries x negated x 6 masks, directors with 0-2 members x 3 types x retries absent/0/5, two of each, nothing, 4 Terraform module layouts with items / the service in child and grandchild modules, backend names that differ only in the length of a run of non-identifier characters). Oracle: generation does not crash or refuse, every generated item parses, and the parsed tables / acls / backends / directors / response objects have exactly the key, value, address, mask, negation, membership and content of the resources; a director member must name the backend as it is declared. non-trivial = every case; distinct = distinct (path, resources)",
+		Rule: "resource sets fed through three entry paths (a stub snippet.Fetcher, the real remote.FastlyApiFetcher whose HTTP client is answered by a fake Fastly API built from the case, and a generated Terraform plan JSON through terraform.ParseStdin; plans with two services are generated one service after the other on one fetcher, in both orders): every string of length <= 2 (quick) / 3 (thorough) over the 12-symbol alphabet {a \" % 2 0 { } newline # \\ space ;} plus URL-encoded and quote/brace specials placed in turn in every free-text field (dictionary key, dictionary value, ACL comment, backend address, response content, response content type), every pair of fields with every pair of strings of length <= 1 (thorough: 2), every 1-2 character insertion of -, ., space, é at every position of a backend name (also as director member) and of a director name, and structures (0/1/3 items, IPv4/IPv6 entries x negated x 6 masks, directors with 0-2 members x 3 types x retries absent/0/5, two of each, nothing, 4 Terraform module layouts with items / the service in child and grandchild modules, backend names that differ only in the length of a run of non-identifier characters). Oracle: generation does not crash or refuse, every generated item parses, and the parsed tables / acls / backends / directors / response objects have exactly the key, value, address, mask, negation, membership and content of the resources; a director member must name the backend as it is declared. non-trivial = every case; distinct = distinct (path, resources)",
 		Gen:  gen20,
 		Key:  func(c Case) string { b, _ := json.Marshal(c); return string(b) },
 		Run:  run,
